@@ -217,7 +217,21 @@ def project_frame_result(fr):
     aphs = []
     for m in fr.metrics_score.maps:
         aphs.append([("inf" if a.ap == float("inf") else a.ap) for a in m.aphs])
+    # the deprecated pair of functions is a second implementation of the same classification (where both are defined)
+    import warnings as _w
+
+    from perception_eval.evaluation.matching import MatchingMode
+    from perception_eval.evaluation.matching.objects_filter import divide_tp_fp_objects, get_fn_objects
+
+    cfgpf = pf.frame_pass_fail_config
+    with _w.catch_warnings():
+        _w.simplefilter("ignore")
+        dtp, dfp = divide_tp_fp_objects(fr.object_results, cfgpf.target_labels, MatchingMode.PLANEDISTANCE, cfgpf.matching_threshold_list)
+        dfn = get_fn_objects(fr.frame_ground_truth.objects, fr.object_results, dtp)
     return dict(
+        dep_tp=pairs(dtp),
+        dep_fn_ordinary=sorted(vid(o) for o in dfn if not o.semantic_label.is_fp()),
+        has_fp_gt=any(o.semantic_label.is_fp() for o in fr.frame_ground_truth.objects),
         rs2=pairs(fr.object_results),
         g2=sorted(vid(o) for o in fr.frame_ground_truth.objects),
         tp=pairs(pf.tp_object_results),
@@ -268,6 +282,11 @@ def compare(impl, spec):
             diff.append(k)
     if impl["nsucc"] != len(spec["tp"]) + len(spec["tn"]) or impl["nfail"] != len(spec["fp"]) + len(spec["fn"]):
         diff.append("num_success_fail")
+    if not impl.get("has_fp_gt", True):
+        if [tuple(x) for x in impl["dep_tp"]] != list(spec["tp"]):
+            diff.append("deprecated_divide_tp_fp")
+        if list(impl["dep_fn_ordinary"]) != list(spec["fn"]):
+            diff.append("deprecated_get_fn")
     if len(impl["aps"]) != len(spec["aps"]):
         diff.append("maps_shape")
     else:
